@@ -376,6 +376,11 @@ struct decode_traits<T,
     {
         std::error_code ec;
 
+        cursor.array_expected(ec);
+        if (JSONCONS_UNLIKELY(ec))
+        {
+            return result_type(jsoncons::unexpect, ec, cursor.line(), cursor.column());
+        }
         if (cursor.current().event_type() == staj_events::begin_array)
         {
             T v{jsoncons::make_obj_using_allocator<T>(aset.get_allocator())};
